@@ -104,7 +104,7 @@ ObserveEff == UNCHANGED pvars
 
 PutStart(p)        == phase = "idle" /\ p \in Pres /\ PutStartEff(p)
 Outcome(kind, st)  == OutcomeOk(kind, st) /\ OutcomeEff(kind, st)
-RivalAck           == phase = "running" /\ RivalAckEff
+RivalAck           == phase \in {"running", "ended"} /\ RivalAckEff
 Restart            == phase = "ended" /\ RestartEff
 Get(class)         == phase = "ended" /\ GetOk(class) /\ ObserveEff
 Index(entries)     == phase = "ended" /\ IndexOk(entries) /\ ObserveEff
